@@ -5,6 +5,8 @@ import (
 	"fmt"
 	"math/rand"
 	"os"
+	"sort"
+	"strconv"
 	"strings"
 
 	"github.com/streamingfast/dmetering"
@@ -40,7 +42,8 @@ func init() {
 			"The harness builds the real ParallelProcessor (orchestrator.BuildParallelProcessor) and drives the real Scheduler.Update itself instead of loop.Run: pending commands and undelivered messages form two pools; at each step the PRNG either executes one pending command to completion (a real tier2 job, a real squash, a walker download) or delivers one message to Update; " +
 			"this reaches every order of job completion, merge completion and download events, including several jobs finished before any completion is seen. Monitors: (a) when Worker.Work(unit) is called every lower stage that began before the unit's segment has completed the previous segment; (b) per stage, merges finish exactly once per segment and in increasing segment order, per store module lastBlockInStore never decreases and sits on a segment boundary; " +
 			"(c) no panic, no MsgJobFailed/MsgMergeFailed; (d) on quit: nil error, FinalStoreMap(hand-off) == REF-LINEAR, every output of the requested range delivered by the walker equals the reference, every file left decodes to the reference content; (e) bounded progress: commands and messages exhausted without quit, or only walker polls left with an unchanged state for 3 rounds = deadlock; more than 400+60*units steps = inconclusive. " +
-			"non-trivial = schedule with >=3 jobs or merges in which at least one message was delivered out of creation order; distinct by hash of the pick sequence",
+			"systematic part (the last plain cases: quick 8 grids x 250 executions, thorough 48 x 5000): for ONE small grid (<=6 units, 1..2 workers, one PRNG cache subset) the controlled schedules are enumerated depth-first by re-execution: follow a prefix of choices, then always the first alternative, then advance the deepest choice that has an untried alternative; a state (unit matrix + store positions + multiset of undelivered messages + pending commands by origin + walker progress) reached a second time is not explored again; every execution that reaches quit gets the monitors (a)-(e); a grid whose alternatives run out within the budget is reported as enumerated completely (modulo that state abstraction). " +
+			"non-trivial = schedule with >=3 jobs or merges in which at least one message was delivered out of creation order, or a systematic grid with >=2 executions judged to the end; distinct by hash of the pick sequence",
 		Assumptions: []string{
 			"the only values altered in messages are the pacing fields MsgFileNotPresent.NextWait / MsgDownloadSegment.Wait (shrunk to 1 ns, never to 0: zero means 'no wait requested' to the scheduler); asynchronous file writes are awaited between steps (Stages.WaitAsyncWork), so the controlled mode does not explore the in-flight-write race (the -race mode with the real loop does)",
 			"commands run one at a time on the harness goroutine: overlapping executions are represented by executing several commands before delivering their messages",
@@ -50,10 +53,7 @@ func init() {
 			if mode == "race" {
 				return 60
 			}
-			if tier == "thorough" {
-				return 3400
-			}
-			return 70
+			return c05PRNGCases(tier) + c05DFSCases(tier)
 		},
 		Modes: func(tier string) []string {
 			if os.Getenv("VH_C05_NORACE") != "" {
@@ -61,7 +61,7 @@ func init() {
 			}
 			return []string{"plain", "race"}
 		},
-		CaseTimeout:   300e9,
+		CaseTimeout:   1500e9,
 		MinNontrivial: 30,
 		Run:           runC05,
 	})
@@ -107,24 +107,27 @@ func (w *c05Worker) Work(ctx context.Context, unit stage.Unit, startBlock uint64
 }
 
 type c05Env struct {
-	c       *fw.Case
-	cl      *sim.Cluster
-	sched   *scheduler.Scheduler
-	r       *rand.Rand
-	cmds    []loop.Cmd
-	msgs    []loop.Msg
-	msgSeq  []int
-	nextSeq int
-	trace   []string
-	picks   []int
-	viols   []sim.Finding
+	c                    *fw.Case
+	cl                   *sim.Cluster
+	sched                *scheduler.Scheduler
+	r                    *rand.Rand
+	cmds                 []loop.Cmd
+	labels               []string         // one label per pending command (what produced it): part of the DFS state key
+	choose               func(n int) int  // nil = PRNG
+	onState              func(n int) bool // DFS hook, called before every choice; false = abandon this run (state already explored)
+	msgs                 []loop.Msg
+	msgSeq               []int
+	nextSeq              int
+	trace                []string
+	picks                []int
+	viols                []sim.Finding
 	jobsStarted, jobsRun int
-	merges      map[stage.Unit]int
-	lastMerged  map[int]int
-	lastBlock   map[string]uint64
-	outOfOrder  bool
-	stageShift  bool
-	resps       []*pbsubstreamsrpc.Response
+	merges               map[stage.Unit]int
+	lastMerged           map[int]int
+	lastBlock            map[string]uint64
+	outOfOrder           bool
+	stageShift           bool
+	resps                []*pbsubstreamsrpc.Response
 }
 
 func (e *c05Env) viol(sig, what string) { e.viols = append(e.viols, sim.Finding{Sig: sig, What: what}) }
@@ -165,28 +168,40 @@ func (e *c05Env) run(budget int) (quit bool, quitErr error, verdict string) {
 		if n == 0 {
 			return false, nil, "deadlock: no command pending and no message undelivered, scheduler has not quit"
 		}
-		k := e.r.Intn(n)
+		if e.onState != nil && !e.onState(n) {
+			return false, nil, "pruned"
+		}
+		var k int
+		if e.choose != nil {
+			k = e.choose(n)
+		} else {
+			k = e.r.Intn(n)
+		}
 		e.picks = append(e.picks, k)
 		if k < len(e.cmds) {
 			cmd := e.cmds[k]
+			label := e.labels[k]
 			e.cmds = append(e.cmds[:k], e.cmds[k+1:]...)
+			e.labels = append(e.labels[:k], e.labels[k+1:]...)
 			msg := cmd()
 			e.sched.Stages.WaitAsyncWork()
 			switch m := msg.(type) {
 			case nil:
 			case loop.BatchMsg:
-				e.cmds = append(e.cmds, m...)
+				for i, bc := range m {
+					e.pushCmd(bc, fmt.Sprintf("%s#%d", label, i))
+				}
 			case loop.SequenceMsg:
 				if len(m) > 0 {
 					rest := m[1:]
 					first := m[0]
-					e.cmds = append(e.cmds, func() loop.Msg {
+					e.pushCmd(func() loop.Msg {
 						out := first()
 						if len(rest) > 0 {
-							e.cmds = append(e.cmds, func() loop.Msg { return loop.SequenceMsg(rest) })
+							e.pushCmd(func() loop.Msg { return loop.SequenceMsg(rest) }, label+"+")
 						}
 						return out
-					})
+					}, label+"+")
 				}
 			default:
 				e.msgs = append(e.msgs, msg)
@@ -264,15 +279,85 @@ func (e *c05Env) run(budget int) (quit bool, quitErr error, verdict string) {
 			return false, nil, "violation"
 		}
 		if cmd != nil {
-			e.cmds = append(e.cmds, cmd)
+			e.pushCmd(cmd, msgKey(msg))
 		}
 	}
 	return false, nil, "budget"
 }
 
+func (e *c05Env) pushCmd(cmd loop.Cmd, label string) {
+	e.cmds = append(e.cmds, cmd)
+	e.labels = append(e.labels, label)
+}
+
+// msgKey renders a message without its pacing fields (they grow with every poll and are not scheduler state).
+func msgKey(m loop.Msg) string {
+	switch mm := m.(type) {
+	case orchexecout.MsgFileNotPresent:
+		if mm.NextWait > 0 {
+			mm.NextWait = 1
+		}
+		return fmt.Sprintf("%T%+v", mm, mm)
+	case orchexecout.MsgDownloadSegment:
+		if mm.Wait > 0 { // zero means "no wait requested" to the scheduler: keep that distinction
+			mm.Wait = 1
+		}
+		return fmt.Sprintf("%T%+v", mm, mm)
+	case work.MsgJobSucceeded:
+		return fmt.Sprintf("JobSucceeded{%d,%d}", mm.Unit.Segment, mm.Unit.Stage)
+	case work.MsgJobFailed:
+		return fmt.Sprintf("JobFailed{%d,%d}", mm.Unit.Segment, mm.Unit.Stage)
+	case loop.QuitMsg:
+		return "Quit"
+	}
+	return fmt.Sprintf("%T%+v", m, m)
+}
+
+// stateKey abstracts the whole controlled state: the scheduler's unit matrix and store positions, the undelivered messages
+// and the pending commands (by origin), each as a multiset, and the number of messages the walker has streamed.
+func (e *c05Env) stateKey() string {
+	var ms, cs []string
+	for _, m := range e.msgs {
+		ms = append(ms, msgKey(m))
+	}
+	cs = append(cs, e.labels...)
+	sort.Strings(ms)
+	sort.Strings(cs)
+	return e.sched.Stages.VerifFingerprint() + "|M:" + strings.Join(ms, ";") + "|C:" + strings.Join(cs, ";") + fmt.Sprintf("|W:%d", len(e.resps))
+}
+
+func c05PRNGCases(tier string) int {
+	if tier == "thorough" {
+		return 3400
+	}
+	return 70
+}
+
+// systematic part: (grids, executions per grid, largest grid in units)
+func c05DFSCases(tier string) int {
+	if tier == "thorough" {
+		return 48
+	}
+	return 8
+}
+
+func c05DFSBudget(tier string) (execs, maxUnits int) {
+	if v, err := strconv.Atoi(os.Getenv("VH_C05_DFS_BUDGET")); err == nil && v > 0 { // experiments only
+		return v, 6
+	}
+	if tier == "thorough" {
+		return 5000, 6
+	}
+	return 250, 6
+}
+
 func runC05(c *fw.Case) {
 	if c.Mode == "race" {
 		runC05Race(c)
+		return
+	}
+	if c.Index >= c05PRNGCases(c.Tier) {
+		runC05DFS(c)
 		return
 	}
 	shapeFamily := c.Index%10 == 9 // dedicated sub-family: the recorded known-finding shape
@@ -301,6 +386,7 @@ func runC05(c *fw.Case) {
 	}
 	nStages := len(pl.Graph.StagedUsedModules())
 	c.Distinct("grids", fmt.Sprintf("%dx%d", nStages, pl.Plan.BackprocessSegmenter().Count()))
+	x := &c05Ctx{c: c, s: s, g: g, pl: pl, ref: ref, nStages: nStages}
 	for sched := 0; sched < 6; sched++ {
 		// initial cache: PRNG subset of the complete run's files
 		chosen := map[string]bool{}
@@ -312,135 +398,298 @@ func runC05(c *fw.Case) {
 				chosenNames = append(chosenNames, name)
 			}
 		}
-		dir, _ := os.MkdirTemp(os.Getenv("VH_SCRATCH"), "c05-")
-		restore(dir, s.cl.Tag, g.files, chosen)
-		cl := sim.NewCluster(dir, s.seg, s.cl.Head)
 		workers := 1 + c.R.Intn(3)
-		env, err := newC05Env(c, cl, g.req, workers)
-		if err != nil {
-			os.RemoveAll(dir)
-			c.Violation("C05/setup-failed/"+fw.NormalizeMsg(err.Error()), "building the parallel processor failed: "+err.Error(), s.witness(map[string]any{"request": g.req, "present_files": chosenNames}))
+		env, outcome := x.one(chosen, chosenNames, workers, nil)
+		if outcome == "stop" {
 			return
 		}
-		units := nStages * pl.Plan.BackprocessSegmenter().Count()
-		quit, quitErr, verdict := env.run(400 + 60*units)
-		c.Count("schedules", 1)
-		c.Count("steps", int64(len(env.picks)))
-		c.Count("jobs_run", int64(env.jobsRun))
-		c.Count("merges_finished", int64(len(env.merges)))
-		c.Distinct("pick_sequences", fmt.Sprint(env.picks))
-		wit := func() map[string]any {
-			tr := env.trace
-			if len(tr) > 120 {
-				tr = tr[len(tr)-120:]
-			}
-			return s.witness(map[string]any{"request": g.req, "present_files": chosenNames, "workers": workers, "picks": env.picks, "trace_tail": tr, "final_state": strings.Split(env.sched.Stages.VerifFingerprint(), "\n")})
-		}
-		done := func() { os.RemoveAll(dir) }
-		if len(env.viols) > 0 {
-			for _, v := range env.viols {
-				c.Violation(v.Sig, v.What, wit())
-			}
-			done()
-			return
-		}
-		if !quit {
-			switch {
-			case verdict == "budget":
-				c.Inconclusive("step budget exhausted without quit")
-			case env.stageShift || pl.KnownHangShape():
-				c.Violation("C05/liveness/stage-index-shift", "the scheduler never terminates: store stages were dropped from Stages (no store to build) and the remaining stage is sent to tier2 under the wrong stage index, so the requested outputs are never written: "+verdict, wit())
-			default:
-				c.Violation("C05/liveness/deadlock", verdict, wit())
-			}
-			done()
-			if c.Violated() {
-				return
-			}
+		if outcome != "ok" {
 			continue
 		}
-		if quitErr != nil {
-			c.Violation("C05/quit-with-error/"+fw.NormalizeMsg(quitErr.Error()), "scheduler quit with error: "+quitErr.Error(), wit())
-			done()
-			return
-		}
-		// (d) final state
-		if pl.Plan.LinearPipeline != nil || true {
-			handoff := pl.Details.LinearHandoffBlockNum
-			if pl.Plan.BuildStores != nil {
-				sm, err := env.sched.FinalStoreMap(handoff)
-				if err != nil {
-					c.Violation("C05/final-store-map/"+fw.NormalizeMsg(err.Error()), "FinalStoreMap failed after a clean quit: "+err.Error(), wit())
-					done()
-					return
-				}
-				for name, st := range sm {
-					pr := s.pkg.Progs[name]
-					pair := model.Pair{Policy: pr.Policy, VT: pr.VT}
-					snap := sim.StoreSnap{KV: map[string][]byte{}}
-					st.Iter(func(k string, v []byte) error { snap.KV[k] = v; return nil })
-					got, err := sim.TypedStore(pair, snap)
-					want, _ := sim.TypedStore(pair, ref.RefStoreAt(name, handoff))
-					c.Count("final_stores_compared", 1)
-					if err != nil || sim.DiffTyped(got, want) != "" {
-						c.Violation("C05/final-store-content", fmt.Sprintf("store %s at hand-off %d differs from the sequential reference: %v %s", name, handoff, err, sim.DiffTyped(got, want)), wit())
-						done()
-						return
-					}
-				}
-			}
-		}
-		// walker output against the reference
-		if pl.Plan.ReadExecOut != nil {
-			fake := &sim.Result{Spec: g.req, Responses: append([]*pbsubstreamsrpc.Response{{Message: &pbsubstreamsrpc.Response_Session{Session: &pbsubstreamsrpc.SessionInit{ResolvedStartBlock: pl.Details.ResolvedStartBlockNum, LinearHandoffBlock: pl.Details.LinearHandoffBlockNum}}}}, env.resps...)}
-			fake.Spec.Stop = pl.Plan.ReadExecOut.ExclusiveEndBlock
-			fs, facts := sim.CheckStream(fake, ref, false)
-			for _, f := range fs {
-				c.Violation("C05/"+f.Sig, f.What, wit())
-			}
-			c.Count("walker_messages_checked", int64(facts.Data))
-		}
-		af, _ := cl.AuditCache(ref, s.pkg)
-		for _, f := range af {
-			c.Violation("C05/"+f.Sig, f.What, wit())
-		}
-		// requested outputs all written
-		if pl.Plan.WriteExecOut != nil {
-			h := pl.Graph.ModuleHashes().Get(g.out)
-			seg := pl.Plan.ReadOutSegmenter(pl.Graph.ModulesInitBlocks()[g.out])
-			have := map[string]bool{}
-			for _, f := range cl.ListCache() {
-				have[f.Rel] = true
-			}
-			sub := "outputs"
-			if s.pkg.Kind[g.out] == "index" {
-				sub = "index"
-			}
-			for k := seg.FirstIndex(); k <= seg.LastIndex(); k++ {
-				r := seg.Range(k)
-				if r == nil || s.pkg.Kind[g.out] == "index" {
-					continue
-				}
-				rel := fmt.Sprintf("%s/%s/%010d-%010d.output.zst", h, sub, r.StartBlock, r.ExclusiveEndBlock)
-				if !have[rel] {
-					c.Violation("C05/output-file-missing-after-quit", "scheduler quit cleanly but requested output file "+rel+" was not written", wit())
-				}
-			}
-		}
-		done()
-		if c.Violated() {
-			return
-		}
+		c.Distinct("pick_sequences", fmt.Sprint(env.picks))
 		c.Distinct("fingerprints_final", env.sched.Stages.VerifFingerprint())
 		if env.jobsRun+len(env.merges) >= 3 && env.outOfOrder {
 			c.Nontrivial(fmt.Sprint(env.picks) + fmt.Sprint(chosenNames) + fmt.Sprint(s.pkg.Describe()))
 		}
 		if c.WantSample() && sched == 0 {
-			w := wit()
+			w := x.wit(env, chosenNames, workers)
 			w["trace_tail"] = env.trace
 			c.Sample(w)
 		}
 	}
+}
+
+// runC05DFS: depth-first enumeration of the controlled schedules of ONE small grid by re-execution. Every execution follows
+// a prefix of choices and then always takes the first alternative; afterwards the deepest choice with an untried alternative is
+// advanced. A state (scheduler fingerprint + undelivered messages + pending commands by origin + walker progress) reached for the
+// second time is not explored again. The grid is COMPLETE when no untried alternative is left within the execution budget.
+func runC05DFS(c *fw.Case) {
+	budget, maxUnits := c05DFSBudget(c.Tier)
+	var g *c07Golden
+	var pl *sim.Planned
+	for attempt := 0; attempt < 400 && g == nil; attempt++ {
+		gg, ok := buildGolden(c, c.R, 3, 30)
+		if !ok {
+			break
+		}
+		p, err := gg.s.cl.PlanFor(gg.req)
+		if err == nil && p.Plan.BuildStores != nil && !p.KnownHangShape() {
+			if u := len(p.Graph.StagedUsedModules()) * p.Plan.BackprocessSegmenter().Count(); u >= 2 && u <= maxUnits {
+				g, pl = gg, p
+				break
+			}
+		}
+		gg.s.close()
+	}
+	if g == nil {
+		c.Count("dfs_no_small_grid_found", 1)
+		return
+	}
+	s := g.s
+	defer s.close()
+	s.c = c
+	ref := s.ref(g.out)
+	if ref == nil {
+		return
+	}
+	nStages := len(pl.Graph.StagedUsedModules())
+	grid := fmt.Sprintf("%dx%d", nStages, pl.Plan.BackprocessSegmenter().Count())
+	c.Distinct("dfs_grids", grid)
+	x := &c05Ctx{c: c, s: s, g: g, pl: pl, ref: ref, nStages: nStages}
+	chosen := map[string]bool{}
+	var chosenNames []string
+	p := []float64{0, 0, 0.4, 0.8}[c.R.Intn(4)]
+	for _, name := range g.names {
+		if c.R.Float64() < p {
+			chosen[name] = true
+			chosenNames = append(chosenNames, name)
+		}
+	}
+	workers := 1 + c.R.Intn(2)
+	visited := map[string]bool{}
+	var prefix, prevBranching []int
+	complete := false
+	execs, judged, pruned := 0, 0, 0
+	for execs < budget {
+		var branching []int
+		step := 0
+		inRun := map[string]bool{}
+		configure := func(e *c05Env) {
+			walkerOnly := func() bool {
+				for _, m := range e.msgs {
+					switch m.(type) {
+					case orchexecout.MsgFileNotPresent, orchexecout.MsgDownloadSegment:
+					default:
+						return false
+					}
+				}
+				for _, l := range e.labels {
+					if !strings.Contains(l, "MsgFileNotPresent") && !strings.Contains(l, "MsgDownloadSegment") {
+						return false
+					}
+				}
+				return true
+			}
+			e.onState = func(n int) bool {
+				if len(branching) >= len(prefix) && !walkerOnly() { // new territory (walker-only polling is left to the deadlock detector)
+					key := e.stateKey()
+					if visited[key] {
+						return false
+					}
+					visited[key] = true
+					inRun[key] = true
+				} else if len(branching) < len(prevBranching) && len(branching) < len(prefix) && prevBranching[len(branching)] != n {
+					c.Count("dfs_replays_that_diverged", 1)
+				}
+				branching = append(branching, n)
+				return true
+			}
+			e.choose = func(n int) int {
+				k := 0
+				if step < len(prefix) {
+					k = prefix[step]
+				}
+				step++
+				if k >= n {
+					k = n - 1
+				}
+				return k
+			}
+		}
+		env, outcome := x.one(chosen, chosenNames, workers, configure)
+		execs++
+		if outcome == "stop" {
+			return
+		}
+		if outcome == "pruned" {
+			pruned++
+		} else {
+			judged++
+			if outcome == "ok" {
+				c.Distinct("fingerprints_final", env.sched.Stages.VerifFingerprint())
+			}
+		}
+		// backtrack
+		picks := env.picks
+		i := len(picks) - 1
+		for ; i >= 0; i-- {
+			if i < len(branching) && picks[i]+1 < branching[i] {
+				break
+			}
+		}
+		if i < 0 {
+			complete = true
+			break
+		}
+		prefix = append(append([]int{}, picks[:i]...), picks[i]+1)
+		prevBranching = branching
+		if execs == 1 && c.WantSample() {
+			w := x.wit(env, chosenNames, workers)
+			w["kind"] = "first execution of a depth-first enumeration"
+			c.Sample(w)
+		}
+	}
+	c.Count("dfs_executions", int64(execs))
+	c.Count("dfs_executions_judged_to_the_end", int64(judged))
+	c.Count("dfs_executions_merged_into_explored_state", int64(pruned))
+	c.Count("dfs_distinct_states", int64(len(visited)))
+	if complete {
+		c.Count("dfs_grids_enumerated_completely", 1)
+		c.Distinct("dfs_complete_grids", fmt.Sprintf("%s w=%d cache=%d/%d %v", grid, workers, len(chosenNames), len(g.names), s.pkg.Describe()))
+	} else {
+		c.Count("dfs_grids_budget_exhausted", 1)
+	}
+	if judged >= 2 {
+		c.Nontrivial(fmt.Sprintf("dfs|%v|%+v|%v|%d", s.pkg.Describe(), g.req, chosenNames, workers))
+	}
+}
+
+type c05Ctx struct {
+	c       *fw.Case
+	s       *scen
+	g       *c07Golden
+	pl      *sim.Planned
+	ref     *sim.Ref
+	nStages int
+}
+
+func (x *c05Ctx) wit(env *c05Env, chosenNames []string, workers int) map[string]any {
+	tr := env.trace
+	if len(tr) > 120 {
+		tr = tr[len(tr)-120:]
+	}
+	return x.s.witness(map[string]any{"request": x.g.req, "present_files": chosenNames, "workers": workers, "picks": env.picks, "trace_tail": tr, "final_state": strings.Split(env.sched.Stages.VerifFingerprint(), "\n")})
+}
+
+// one runs ONE controlled schedule on a fresh copy of the chosen cache files and judges it.
+// outcome: "ok" (quit cleanly, all monitors held), "stop" (violation recorded or setup failed: end the case),
+// "pruned" (abandoned by the DFS hook), "skip" (known finding shape / inconclusive: go on with the next schedule).
+func (x *c05Ctx) one(chosen map[string]bool, chosenNames []string, workers int, configure func(*c05Env)) (*c05Env, string) {
+	c, s, g, pl, ref := x.c, x.s, x.g, x.pl, x.ref
+	dir, _ := os.MkdirTemp(os.Getenv("VH_SCRATCH"), "c05-")
+	defer os.RemoveAll(dir)
+	restore(dir, s.cl.Tag, g.files, chosen)
+	cl := sim.NewCluster(dir, s.seg, s.cl.Head)
+	env, err := newC05Env(c, cl, g.req, workers)
+	if err != nil {
+		c.Violation("C05/setup-failed/"+fw.NormalizeMsg(err.Error()), "building the parallel processor failed: "+err.Error(), s.witness(map[string]any{"request": g.req, "present_files": chosenNames}))
+		return nil, "stop"
+	}
+	if configure != nil {
+		configure(env)
+	}
+	units := x.nStages * pl.Plan.BackprocessSegmenter().Count()
+	quit, quitErr, verdict := env.run(400 + 60*units)
+	c.Count("schedules", 1)
+	c.Count("steps", int64(len(env.picks)))
+	c.Count("jobs_run", int64(env.jobsRun))
+	c.Count("merges_finished", int64(len(env.merges)))
+	wit := func() map[string]any { return x.wit(env, chosenNames, workers) }
+	if len(env.viols) > 0 {
+		for _, v := range env.viols {
+			c.Violation(v.Sig, v.What, wit())
+		}
+		return env, "stop"
+	}
+	if !quit {
+		switch {
+		case verdict == "pruned":
+			return env, "pruned"
+		case verdict == "budget":
+			c.Inconclusive("step budget exhausted without quit")
+		case env.stageShift || pl.KnownHangShape():
+			c.Violation("C05/liveness/stage-index-shift", "the scheduler never terminates: store stages were dropped from Stages (no store to build) and the remaining stage is sent to tier2 under the wrong stage index, so the requested outputs are never written: "+verdict, wit())
+		default:
+			c.Violation("C05/liveness/deadlock", verdict, wit())
+		}
+		if c.Violated() {
+			return env, "stop"
+		}
+		return env, "skip"
+	}
+	if quitErr != nil {
+		c.Violation("C05/quit-with-error/"+fw.NormalizeMsg(quitErr.Error()), "scheduler quit with error: "+quitErr.Error(), wit())
+		return env, "stop"
+	}
+	// (d) final state
+	handoff := pl.Details.LinearHandoffBlockNum
+	if pl.Plan.BuildStores != nil {
+		sm, err := env.sched.FinalStoreMap(handoff)
+		if err != nil {
+			c.Violation("C05/final-store-map/"+fw.NormalizeMsg(err.Error()), "FinalStoreMap failed after a clean quit: "+err.Error(), wit())
+			return env, "stop"
+		}
+		for name, st := range sm {
+			pr := s.pkg.Progs[name]
+			pair := model.Pair{Policy: pr.Policy, VT: pr.VT}
+			snap := sim.StoreSnap{KV: map[string][]byte{}}
+			st.Iter(func(k string, v []byte) error { snap.KV[k] = v; return nil })
+			got, err := sim.TypedStore(pair, snap)
+			want, _ := sim.TypedStore(pair, ref.RefStoreAt(name, handoff))
+			c.Count("final_stores_compared", 1)
+			if err != nil || sim.DiffTyped(got, want) != "" {
+				c.Violation("C05/final-store-content", fmt.Sprintf("store %s at hand-off %d differs from the sequential reference: %v %s", name, handoff, err, sim.DiffTyped(got, want)), wit())
+				return env, "stop"
+			}
+		}
+	}
+	// walker output against the reference
+	if pl.Plan.ReadExecOut != nil {
+		fake := &sim.Result{Spec: g.req, Responses: append([]*pbsubstreamsrpc.Response{{Message: &pbsubstreamsrpc.Response_Session{Session: &pbsubstreamsrpc.SessionInit{ResolvedStartBlock: pl.Details.ResolvedStartBlockNum, LinearHandoffBlock: pl.Details.LinearHandoffBlockNum}}}}, env.resps...)}
+		fake.Spec.Stop = pl.Plan.ReadExecOut.ExclusiveEndBlock
+		fs, facts := sim.CheckStream(fake, ref, false)
+		for _, f := range fs {
+			c.Violation("C05/"+f.Sig, f.What, wit())
+		}
+		c.Count("walker_messages_checked", int64(facts.Data))
+	}
+	af, _ := cl.AuditCache(ref, s.pkg)
+	for _, f := range af {
+		c.Violation("C05/"+f.Sig, f.What, wit())
+	}
+	// requested outputs all written
+	if pl.Plan.WriteExecOut != nil {
+		h := pl.Graph.ModuleHashes().Get(g.out)
+		seg := pl.Plan.ReadOutSegmenter(pl.Graph.ModulesInitBlocks()[g.out])
+		have := map[string]bool{}
+		for _, f := range cl.ListCache() {
+			have[f.Rel] = true
+		}
+		for k := seg.FirstIndex(); k <= seg.LastIndex(); k++ {
+			r := seg.Range(k)
+			if r == nil || s.pkg.Kind[g.out] == "index" {
+				continue
+			}
+			rel := fmt.Sprintf("%s/outputs/%010d-%010d.output.zst", h, r.StartBlock, r.ExclusiveEndBlock)
+			if !have[rel] {
+				c.Violation("C05/output-file-missing-after-quit", "scheduler quit cleanly but requested output file "+rel+" was not written", wit())
+			}
+		}
+	}
+	if c.Violated() {
+		return env, "stop"
+	}
+	return env, "ok"
 }
 
 func newC05Env(c *fw.Case, cl *sim.Cluster, req sim.RequestSpec, workers int) (*c05Env, error) {
@@ -485,6 +734,7 @@ func newC05Env(c *fw.Case, cl *sim.Cluster, req sim.RequestSpec, workers int) (*
 	e.sched = pp.VerifScheduler()
 	native.StartLog()
 	e.cmds = []loop.Cmd{e.sched.Init()}
+	e.labels = []string{"init"}
 	return e, nil
 }
 
